@@ -11,8 +11,10 @@ def run(ctx):
     # all OPEN classes x local configurations; after an accepted OPEN the session is taken to Established and one UPDATE is
     # exchanged so that the negotiated options (4-octet ASN, add-path, multiprotocol) show in what is accepted
     for cfg, ups in (("ebgp", {"annA", "annC6"}), ("ibgp", {"annA"}), ("hold3", {"annA"}), ("cust", {"annA"}), ("custS", {"annA"}),
-                     ("ap", {"apA1A2", "apWdA1"}), ("apTx", {"annA"})):
-        c = sc.consts(cfg, sc.ALL_OPENS, ups, set(), set(), 5 if cfg != "ap" else 6, sessions=1)
+                     ("ap", {"apA1A2", "apWdA1"}), ("apTx", {"annA"}), ("ibgp4", {"annA"})):
+        # (in a 4-octet AS every OPEN of the peer says AS_TRANS in the 2-octet field: classes without the capability do not apply)
+        opens = sc.ALL_OPENS if cfg != "ibgp4" else {"ok", "okTrans", "idOurs", "idZero", "badAS", "badAS4", "hold0", "hold3", "hold1", "version3"}
+        c = sc.consts(cfg, opens, ups, set(), set(), 5 if cfg != "ap" else 6, sessions=1)
         behs += sc.run_family(ctx, cfg, c, 6000 if big else 380, design=(cfg in ("ebgp", "cust")))
     # negotiation must not depend on earlier sessions of the peer: all paths over two / three consecutive sessions with different
     # OPENs (role present / absent / incompatible in strict mode; 4-octet AS capability present / absent; add-path capability present /
@@ -30,7 +32,7 @@ def run(ctx):
                               keep=lambda b: len(b) == depth and b[-1]["s"]["nsess"] == 2 and b[-1]["s"]["st"] == "Established"
                               and b[-1]["a"] in ("Wait", "RecvUpdate") and b[-2]["a"] == "RecvKeepalive")
     ctx.rule = ("21 OPEN classes (configured / other / AS_TRANS peer AS with and without matching 4-octet capability, identifier ok / 0 / "
-                "ours, hold time 0 1 2 3 30 90, version 3, RFC 9234 roles) x 7 local configurations (eBGP, iBGP, hold time 3, role "
+                "ours, hold time 0 1 2 3 30 90, version 3, RFC 9234 roles) x 8 local configurations (eBGP, iBGP, iBGP in a 4-octet AS, hold time 3, role "
                 "customer, strict role mode, add-path receive, add-path send only); expected verdict = OpenVerdict (NOTIFICATION code/subcode and closed "
                 "connection, or KEEPALIVE and OpenConfirm with hold time = min of both offers); accepted sessions go on to Established "
                 "and exchange UPDATEs encoded with the negotiated options (2- or 4-octet AS_PATH, add-path identifiers, MP_REACH); "
